@@ -437,3 +437,28 @@ PROPS["C06"] = {
          "trace_module": "StoreTxTrace", "trace_consts": dict(ENTRY), "tv_timeout": 3000, "timeout": 7200},
     ],
 }
+
+# ------------------------------------------------------------------------------------------ C04
+PROPS["C04"] = {
+    "level": "model_checking",
+    "rule": "model: 3 replicas, <= 3 local writes/deletions over a universe with prefix deletions and ties, bag network with "
+            "loss / duplication / reordering, partial sessions (any subsets learnt), complete sessions, closing phase over the "
+            "chain 1-2, 2-3; implementation: 2..5 real file-backed replicas, seeded schedules (12-36 steps) of writes with skewed "
+            "clocks, gossip deliveries (dup / drop / reorder), real sessions cut after message k or complete, restarts, then "
+            "complete sessions along the chain until nothing moves",
+    "assumptions": ["restarts are graceful (dropping the store flushes); crash atomicity is C06's subject",
+                    "gossip delivery is modelled as insert_remote_entry of the entry as signed by the writer (what receive_loop does)",
+                    "the live engine's own networking (iroh-gossip, QUIC) is not exercised here"],
+    "models": [
+        {"name": "swarm", "module": "MCSwarm", "workers": 12, "timeout": 1800,
+         "consts": dict(ENTRY, Replicas="{1, 2, 3}", Universe="<- USw", MaxWrites=3, ClosingSeq="<- Chain3", SessionsJoin="TRUE"),
+         "invariants": ["OnlyWritten", "Normal", "ClosedMeansConverged"]},
+    ],
+    "sensitivity": [{"base": "swarm", "flip": {"SessionsJoin": "FALSE"}},
+                    {"base": "swarm", "flip": {"ParentsSeeMarkers": "FALSE"}}],
+    "drives": [
+        {"name": "swarm", "cmd": "swarm", "args": {"n": {"quick": 150, "thorough": 4000}},
+         "trace_module": "SwarmTrace", "trace_consts": dict(ENTRY), "trace_invariants": ["OnlyWritten", "Normal"],
+         "tv_timeout": 3000, "timeout": 7200},
+    ],
+}
